@@ -84,7 +84,7 @@ func (muxer *Muxer) Close() error {
 	}
 
 	muxer.closed = true
-	muxer.recvQueue.Signal()
+	muxer.recvQueue.Push(nil) // 在队列锁内唤醒，避免 closed 检查与 Pop 等待之间丢失信号
 	return nil
 }
 
